@@ -89,3 +89,12 @@ Proof. repeat split. Qed.
 Theorem exit_statement_order :
   aexit_closing_before_stack = true /\ aexit_closed_in_finally = true /\ aexit_child_check_in_finally = true.
 Proof. repeat split. Qed.
+
+(* the general fact behind `callbacks_see_everything_in_place`: WHATEVER else is on the exit stack and in
+   whatever order, an entry that is pushed last is unwound first, before anything has been released -- so the
+   property needs of the source only that the teardown callbacks are the last thing __aenter__ pushes *)
+Theorem pushed_last_sees_everything : forall l a, seen_from (rev (l ++ [E_teardown_callbacks])) a = Some a.
+Proof. intros l a. rewrite rev_app_distr. reflexivity. Qed.
+
+Theorem teardown_callbacks_pushed_last : forall hp, exists l, exit_entries hp = l ++ [E_teardown_callbacks].
+Proof. intros [|]; eexists; reflexivity. Qed.
